@@ -131,7 +131,7 @@ class IdProp(PropBase):
                                 cases.append({"g": g, "X": list(X), "Y": list(Y)})
         nmax = 6 if tier == "quick" else 7
         while len(cases) < n:
-            g = GG.rand_admg(rng, 2, nmax)
+            g = GG.rand_admg_big(rng) if rng.random() < 0.04 else GG.rand_admg(rng, 2, nmax)
             X, Y = gen_query(rng, g)
             cases.append({"g": g, "X": X, "Y": Y})
         return cases
